@@ -21,7 +21,7 @@ let show_lines (ls : z list list) = String.concat " | " (List.map show_ints ls)
 
 type hist = { hid : int; cfg : config; mutable evs : event list (* reversed *) }
 
-let props : (string * (Model.proj * (config -> trace -> Model.violation list))) list = Props.table
+let props : (string * (Model.tproj * (config -> trace -> Model.violation list))) list = Props.table
 
 let () =
   let prop = Sys.argv.(1) in
@@ -77,8 +77,13 @@ let () =
             | Some h ->
               incr n_hist;
               let impl = List.rev h.evs in
-              let mm = diff_trace h.cfg pi impl in
+              let mm = diff_trace_t h.cfg pi impl in
               let pv = pred h.cfg impl in
+              let pvm = pred h.cfg (run h.cfg (List.map (fun e -> e.ev_op) impl)) in
+              List.iteri (fun i v ->
+                  if i < maxshow then
+                    Printf.printf "MODELVIOL %d at=%d code=%d info=%s\n" h.hid
+                      (int_of_nat v.v_index) (int_of_z v.v_code) (show_ints v.v_info)) pvm;
               if mm = [] && pv = [] then Printf.printf "OK %d %d\n" h.hid (List.length impl)
               else begin
                 incr n_bad;
